@@ -419,21 +419,25 @@ def replay(path: str) -> int:
             print(f"replay template key={d['key']} record={rec} verdict={verdict}")
             bad += verdict != "ok"
             continue
-        if "how" in d:  # Q3: the stored JSON fed back to the config class
+        if "how" in d:  # Q3: re-create the configuration from its invocation, store it, feed it back
             idx = next(i for i, (p, _) in enumerate(cmds) if list(p) == d["command"])
             cmd = cmds[idx][1]
-            names = [n for n in cmd.CONFIG_TYPE.model_fields if n != "init_kwargs"]
-            stored = json.loads(d["dump"])
-            rec = {"id": 0, "kind": "reload", "orig": [], "re": [], "err": False}
+            sb = L.Sandbox()
             try:
-                again = json.loads(cmd.CONFIG_TYPE(**stored).model_dump_json())
-                rec["orig"], rec["re"] = C._ids([L.ckey(stored.get(n)) for n in names],
-                                                [L.ckey(again.get(n)) for n in names])
-            except BaseException as e:  # noqa: BLE001
-                rec["err"] = True
-                print(f"  reload raised {type(e).__name__}: {str(e)[:200]}")
+                names = [o.name for o in L.options_of(cmd, sb)]
+                o = d["origin"]
+                cfg, err = sb.parse(cmd, o["argv"], o["env"], o["toml"])
+                if cfg is None:
+                    print(f"replay: invocation no longer parses: {L.error_message(err or '')[:200]}")
+                    continue
+                r = C.reload_record(cmd.CONFIG_TYPE, cfg, names, d["how"], C.LOADERS[d["how"]](cmd, sb))
+            finally:
+                sb.close()
+            rec = dict(r["rec"])
+            rec["id"] = 0
             verdict = _validate([rec], None, "replay")[0]
-            print(f"replay reload {' '.join(d['command'])} how={d['how']} verdict={verdict}")
+            print(f"replay reload {' '.join(d['command'])} argv={o['argv'][-4:]} how={d['how']} "
+                  f"differs={r['detail']['differs']} error={r['detail']['error'][:120]!r} verdict={verdict}")
             bad += verdict != "ok"
             continue
         idx = next(i for i, (p, _) in enumerate(cmds) if list(p) == d["command"])
